@@ -301,6 +301,17 @@ func (mc *multiShard) getShardForRepair(currentTick uint64) []shardRepair {
 
 func (mc *multiShard) update(nhi pb.NodeHostInfo) {
 	toKill := mc.doUpdate(nhi)
+	// the list is part of the replicated state and is only ever cleared on the
+	// scheduler's decoded copy. what a nodehost just reported supersedes what
+	// was recorded for it before, so a zombie that is gone is no longer listed
+	// and one that is still there is listed once.
+	var kept []replicaToKill
+	for _, ntk := range mc.ReplicasToKill {
+		if ntk.Address != nhi.RaftAddress {
+			kept = append(kept, ntk)
+		}
+	}
+	mc.ReplicasToKill = kept
 	for _, ntk := range toKill {
 		n := replicaToKill{
 			ShardID:   ntk.ShardId,
